@@ -55,19 +55,31 @@ CHECKS = {
    text="Coq theorems about play() for EVERY store type and router: the actions handed to the router at the next action are exactly "
         "rev(emitted callbacks of the previous events) ++ [action] ++ done callbacks (each carrying name, (method, tag), payload), "
         "nothing of an older action survives, and checkpoint+restore in between is transparent. The model's queue is compared in "
-        "Coq with the exact list of actions the real router received, for every play of recorded runs incl. reloads/rollbacks.",
-   note="Trusted: Coq kernel; restore∘save=id; listener matching lives inside the router (quantified over, not modelled); "
-        "correspondence sampled over jobs/plans.",
-   technique="Coq proof over a hand-written model of play() + router-level dispatch correspondence evaluated in Coq",
+        "Coq with the exact list of actions the real router received, for every play of recorded runs incl. reloads/rollbacks. "
+        "Listener level (Model/Dispatch.v: _find_mapping_name with $-listeners and wildcard keys, Tandem/Context addons, route cache, "
+        "composed with play): for every event of play k and every installed component listening to its emitted/done callback the "
+        "invocation trace of play k+1 contains exactly one invocation of that component's mapped reducer with the event's payload, "
+        "before resp. after the invocations of the played action; re-entrant addon dispatch is counted apart; nothing of play k is "
+        "offered in play k+2 (C05_listeners_offered_once, C05_one_invocation_per_listener, C05_not_offered_later).",
+   note="Trusted: Coq kernel; restore∘save=id; the dispatch model is tied to simulate/base.py and component/base.py by the H-dispatch "
+        "correspondence (mapping lookup, callbacks, whole-play invocation traces of real engines replayed in Coq) and by generated "
+        "obligations on the components extracted from real engines (distinct names, non-empty keys); correspondence sampled over jobs/plans.",
+   technique="Coq proof over hand-written models of play() and of the dispatch layer + router-level dispatch and invocation-trace correspondence evaluated in Coq",
    design="7 C05"),
  "C06": dict(
    text="Coq theorems: one play advances the clock by exactly the payload of its direct *.elapse action (relayed callbacks add "
         "nothing); each command advances it by its documented amount (ELAPSE t / first positive delay of the CAST's own play / "
         "pending delay of the named skill for RESOLVE / 0 for USE, KEYDOWNSTOP); play-log payloads add up; the clock is monotone "
         "under non-negative ELAPSE. For every router whose components do not write the clock. Documented advance evaluated in Coq "
-        "on recorded logs and compared with recorded clocks; the frame hypothesis and elapsed-payload clause monitored per play.",
-   note="Trusted: Coq kernel; frame hypothesis (monitored); tick-valued time (binary64 rounding of clock additions outside); "
-        "'elapsed carries the elapse time' is proved per modelled component under C09/C07, monitored for the rest.",
+        "on recorded logs and compared with recorded clocks. The frame hypothesis is no longer assumed: C06_frame_from_binds derives "
+        "it from the dispatch model (a component dispatcher writes only its resolved bound addresses; no shipped component binds "
+        "global.time - generated obligation decided by vm_compute on the components extracted from real engines of all jobs), "
+        "C06_router_clock / C06_concrete_play_clock: with the timer installed as a dispatcher a *.elapse moves the clock entity by "
+        "exactly one spent(t) and nothing else moves it. Several simulations built in one process are run in turns on the "
+        "implementation (a clock shared between stores is invisible to checkpoint-restoring engines).",
+   note="Trusted: Coq kernel; the dispatch model's tie (H-dispatch correspondence; extraction of bound addresses from real engines); "
+        "tick-valued time (binary64 rounding of clock additions outside); 'elapsed carries the elapse time' is proved per modelled "
+        "component class (all 64) under C09.",
    technique="Coq proof over models of play(), timer and operation handlers + clock correspondence evaluated in Coq",
    design="7 C06"),
  "C07": dict(
@@ -76,7 +88,10 @@ CHECKS = {
         "every component class shipped is modelled): for every class, reducer, parameters, state and payload except StackableBuffSkillComponent.use, "
         "a result containing a rejection is exactly [reject] and returns the input state, bound entities included (C07_reject_alone, "
         "C07_adele/_mage/_mech_reject_alone); ignore_rejected variants are silent; using a skill that is not ready is a no-op; the dispatcher "
-        "never acknowledges a rejected action. StackableBuffSkillComponent.use as shipped is refuted with a witness (open known finding: a unit "
+        "never acknowledges a rejected action; at store level (Model/Dispatch.v: addressed store, StoreAdapter get/set over bound names, "
+        "tagging and the ACCEPT rule) a reducer answering (input state, [reject]) leaves the store extensionally unchanged when all "
+        "bound addresses are present (C07_store_unchanged; the guard is necessary: setdefault, witness proved) and a dispatch never "
+        "writes outside the component's bound addresses (C07_write_frame, lifted to router and play). StackableBuffSkillComponent.use as shipped is refuted with a witness (open known finding: a unit "
         "test asserts the behaviour) and its largest true part is proved; three further defects found by this check in job-specific classes "
         "(FlameSwipVI.use, the two FlareSlash triggers) were repaired and the models follow the repaired code. The models are compared in Coq "
         "with the real reducers (full output state, event list, views) on random, reachable and shipped instances on every run.",
